@@ -73,6 +73,33 @@ type Case struct {
 	Contexts   []*structpb.Struct            // request contexts (first is nil)
 	CondNames  []string
 	Features   map[string]bool
+	// IDs is the per-type id vocabulary of the case (nil: the default 3-id vocabulary). Wide cases
+	// (Options.Wide) use more ids per type so that operand result sets of different sizes occur.
+	IDs map[string][]string
+}
+
+// IDsOf returns the ids of a type in this case's vocabulary.
+func (c *Case) IDsOf(typ string) []string {
+	if c != nil && c.IDs != nil {
+		return c.IDs[typ]
+	}
+	return IDs(typ)
+}
+
+// ObjectsOf returns the request objects of a type: the case's ids plus one id that never occurs in data.
+func (c *Case) ObjectsOf(typ string) []string {
+	var out []string
+	for _, id := range c.IDsOf(typ) {
+		out = append(out, typ+":"+id)
+	}
+	return append(out, typ+":zz")
+}
+
+var wideIDs = map[string][]string{
+	"user":   {"a", "b", "c", "d", "e"},
+	"group":  {"g1", "g2", "g3", "g4"},
+	"folder": {"f1", "f2", "f3", "f4", "f5"},
+	"doc":    {"d1", "d2", "d3", "d4", "d5", "d6", "d7"},
 }
 
 func this() *openfgav1.Userset {
@@ -119,17 +146,48 @@ type modelGen struct {
 	parents map[string][]string // type -> parent types
 	conds   []string
 	feat    map[string]bool
+	ids     map[string][]string // nil: default vocabulary
+	wide    bool
+}
+
+func (g *modelGen) idsOf(t string) []string {
+	if g.ids != nil {
+		return g.ids[t]
+	}
+	return IDs(t)
+}
+
+// pick draws one id of the type.
+func (g *modelGen) pick(t string) string {
+	ids := g.idsOf(t)
+	return ids[g.r.Intn(len(ids))]
 }
 
 // Options tune generation.
 type Options struct {
 	NoConditions bool
 	MaxDepth     int // rewrite depth, default 2 (3 occasionally)
+	// Wide: 4-7 ids per type, operators with 2-4 operands, up to ~100 tuples. The default (narrow)
+	// generation is unchanged by this option's existence (same PRNG draws).
+	Wide bool
+	// WideEvery > 0: sem.RunCases makes every WideEvery-th case a wide one.
+	WideEvery int
+	// AlgebraEvery > 0: sem.RunCases / sem.Generate make every AlgebraEvery-th case a NewAlgebraCase.
+	AlgebraEvery int
+	// Algebra: generate a NewAlgebraCase.
+	Algebra bool
 }
 
 // NewCase generates one case from the PRNG.
 func NewCase(r *rand.Rand, name string, opt Options) *Case {
+	if opt.Algebra {
+		return NewAlgebraCase(r, name)
+	}
 	g := &modelGen{r: r, rels: map[string][]string{}, hasPar: map[string]bool{}, parents: map[string][]string{}, feat: map[string]bool{}}
+	if opt.Wide {
+		g.wide, g.ids = true, wideIDs
+		g.feat["wide"] = true
+	}
 	// relation names per type
 	for _, t := range []string{"group", "folder", "doc"} {
 		pool := append([]string{}, relPool[t]...)
@@ -236,7 +294,7 @@ func NewCase(r *rand.Rand, name string, opt Options) *Case {
 		}
 		perm.TypeDefinitions = append(perm.TypeDefinitions, td)
 	}
-	c := &Case{Name: name, Model: model, Permissive: perm, CondNames: g.conds, Features: g.feat}
+	c := &Case{Name: name, Model: model, Permissive: perm, CondNames: g.conds, Features: g.feat, IDs: g.ids}
 	c.Tuples = g.genTuples(model)
 	c.Contexts = g.genContexts()
 	return c
@@ -338,16 +396,27 @@ func (g *modelGen) genRelation(t, name string, idx, maxDepth int) relDef {
 		}
 		switch {
 		case k < 45:
-			ch := distinct(2 + g.r.Intn(2))
+			n := 2 + g.r.Intn(2)
+			if g.wide {
+				n += g.r.Intn(2)
+			}
+			ch := distinct(n)
 			if len(ch) < 2 {
 				return ch[0]
 			}
 			g.feat["union"] = true
 			return union(ch...)
 		case k < 75:
-			ch := distinct(2)
+			n := 2
+			if g.wide && g.r.Intn(4) != 0 {
+				n = 3 + g.r.Intn(2)
+			}
+			ch := distinct(n)
 			if len(ch) < 2 {
 				return ch[0]
+			}
+			if len(ch) > 2 {
+				g.feat["nary-intersection"] = true
 			}
 			g.feat["intersection"] = true
 			return intersection(ch...)
@@ -531,14 +600,14 @@ func (g *modelGen) genTuples(model *openfgav1.AuthorizationModel) []*openfgav1.T
 		case 1, 2:
 			t := []string{"group", "folder", "doc"}[g.r.Intn(3)]
 			if len(g.rels[t]) == 0 {
-				return "user:" + UserIDs[g.r.Intn(3)]
+				return "user:" + g.pick("user")
 			}
-			return t + ":" + IDs(t)[g.r.Intn(3)] + "#" + g.rels[t][g.r.Intn(len(g.rels[t]))]
+			return t + ":" + g.pick(t) + "#" + g.rels[t][g.r.Intn(len(g.rels[t]))]
 		case 3:
 			t := []string{"group", "folder"}[g.r.Intn(2)]
-			return t + ":" + IDs(t)[g.r.Intn(3)]
+			return t + ":" + g.pick(t)
 		}
-		return "user:" + UserIDs[g.r.Intn(3)]
+		return "user:" + g.pick("user")
 	}
 	total := 4 + g.r.Intn(28)
 	if g.r.Intn(4) == 0 {
@@ -546,6 +615,9 @@ func (g *modelGen) genTuples(model *openfgav1.AuthorizationModel) []*openfgav1.T
 	}
 	if g.r.Intn(12) == 0 {
 		total = g.r.Intn(3)
+	}
+	if g.wide {
+		total = total*2 + 10 + g.r.Intn(30)
 	}
 	var slots [][2]string // (type, relation) with direct assignment
 	for _, td := range model.GetTypeDefinitions() {
@@ -562,7 +634,7 @@ func (g *modelGen) genTuples(model *openfgav1.AuthorizationModel) []*openfgav1.T
 	for i := 0; i < total; i++ {
 		s := slots[g.r.Intn(len(slots))]
 		t, rn := s[0], s[1]
-		o := t + ":" + IDs(t)[g.r.Intn(3)]
+		o := t + ":" + g.pick(t)
 		restr := typeDef(model, t).GetMetadata().GetRelations()[rn].GetDirectlyRelatedUserTypes()
 		if g.r.Intn(100) < 82 {
 			rr := restr[g.r.Intn(len(restr))]
@@ -571,9 +643,9 @@ func (g *modelGen) genTuples(model *openfgav1.AuthorizationModel) []*openfgav1.T
 			case rr.GetWildcard() != nil:
 				u = rr.GetType() + ":*"
 			case rr.GetRelation() != "":
-				u = rr.GetType() + ":" + IDs(rr.GetType())[g.r.Intn(3)] + "#" + rr.GetRelation()
+				u = rr.GetType() + ":" + g.pick(rr.GetType()) + "#" + rr.GetRelation()
 			default:
-				u = rr.GetType() + ":" + IDs(rr.GetType())[g.r.Intn(3)]
+				u = rr.GetType() + ":" + g.pick(rr.GetType())
 			}
 			cond := rr.GetCondition()
 			if len(g.conds) > 0 && g.r.Intn(12) == 0 {
@@ -611,7 +683,7 @@ func typeDef(m *openfgav1.AuthorizationModel, t string) *openfgav1.TypeDefinitio
 // usersets that occur in the data or are definable in the model (bounded sample of the latter).
 func Subjects(r *rand.Rand, c *Case, maxUsersets int) []string {
 	out := []string{}
-	for _, id := range UserIDs {
+	for _, id := range c.IDsOf("user") {
 		out = append(out, "user:"+id)
 	}
 	out = append(out, "user:*")
@@ -624,7 +696,7 @@ func Subjects(r *rand.Rand, c *Case, maxUsersets int) []string {
 	var defin []string
 	for _, td := range c.Model.GetTypeDefinitions() {
 		for rn := range td.GetRelations() {
-			for _, id := range IDs(td.GetType()) {
+			for _, id := range c.IDsOf(td.GetType()) {
 				defin = append(defin, fmt.Sprintf("%s:%s#%s", td.GetType(), id, rn))
 			}
 		}
@@ -655,10 +727,11 @@ func Subjects(r *rand.Rand, c *Case, maxUsersets int) []string {
 		}
 	}
 	// occasionally a non-user object and a typed wildcard of another type as subject
-	if r.Intn(3) == 0 {
+	hasGroup := typeDef(c.Model, "group") != nil
+	if r.Intn(3) == 0 && hasGroup {
 		out = append(out, "group:g1")
 	}
-	if r.Intn(4) == 0 {
+	if r.Intn(4) == 0 && hasGroup {
 		out = append(out, "group:*")
 	}
 	return dedupe(out)
@@ -714,4 +787,127 @@ func CtxString(s *structpb.Struct) string {
 	}
 	b, _ := s.MarshalJSON()
 	return string(b)
+}
+
+// NewAlgebraCase generates a "set algebra" case: one object type (doc, 7 ids) with 3-5 directly
+// assignable base relations ([user], [user:*] or both) filled densely and at different densities, and
+// 2-4 derived relations whose rewrites are random n-ary (2-4 operands) unions / intersections /
+// exclusions of depth <= 2 over the base relations and earlier derived ones. Operand result sets of
+// different sizes, in every operand order, with wildcards on either side of an exclusion, are the
+// point: they are rare under NewCase's sparse tuples.
+func NewAlgebraCase(r *rand.Rand, name string) *Case {
+	ids := map[string][]string{
+		"user": {"a", "b", "c", "d"}, "doc": {"d1", "d2", "d3", "d4", "d5", "d6", "d7"},
+		"group": {"g1"}, "folder": {"f1"},
+	}
+	feat := map[string]bool{"algebra": true}
+	model := &openfgav1.AuthorizationModel{SchemaVersion: "1.1", Conditions: map[string]*openfgav1.Condition{}}
+	perm := &openfgav1.AuthorizationModel{SchemaVersion: "1.1", Conditions: map[string]*openfgav1.Condition{}}
+	model.TypeDefinitions = append(model.TypeDefinitions, &openfgav1.TypeDefinition{Type: "user"})
+	perm.TypeDefinitions = append(perm.TypeDefinitions, &openfgav1.TypeDefinition{Type: "user"})
+	td := &openfgav1.TypeDefinition{Type: "doc", Relations: map[string]*openfgav1.Userset{}, Metadata: &openfgav1.Metadata{Relations: map[string]*openfgav1.RelationMetadata{}}}
+	nBase := 3 + r.Intn(3)
+	var base []string
+	wild := map[string]bool{}
+	plain := map[string]bool{}
+	for i := 0; i < nBase; i++ {
+		rn := fmt.Sprintf("b%d", i+1)
+		base = append(base, rn)
+		var restr []*openfgav1.RelationReference
+		switch r.Intn(6) {
+		case 0:
+			restr = []*openfgav1.RelationReference{Ref("user", "", true, "")}
+			wild[rn] = true
+		case 1, 2:
+			restr = []*openfgav1.RelationReference{Ref("user", "", false, ""), Ref("user", "", true, "")}
+			wild[rn], plain[rn] = true, true
+		default:
+			restr = []*openfgav1.RelationReference{Ref("user", "", false, "")}
+			plain[rn] = true
+		}
+		if wild[rn] {
+			feat["wildcard"] = true
+		}
+		td.Relations[rn] = this()
+		td.Metadata.Relations[rn] = &openfgav1.RelationMetadata{DirectlyRelatedUserTypes: restr}
+	}
+	avail := append([]string{}, base...)
+	var expr func(depth int, self string) *openfgav1.Userset
+	expr = func(depth int, self string) *openfgav1.Userset {
+		if depth == 0 || r.Intn(100) < 35 {
+			return computed(avail[r.Intn(len(avail))])
+		}
+		operands := func(n int) []*openfgav1.Userset {
+			var ch []*openfgav1.Userset
+			seen := map[string]bool{}
+			for tries := 0; len(ch) < n && tries < 12; tries++ {
+				e := expr(depth-1, self)
+				if k := e.String(); !seen[k] {
+					seen[k] = true
+					ch = append(ch, e)
+				}
+			}
+			return ch
+		}
+		var ch []*openfgav1.Userset
+		switch k := r.Intn(100); {
+		case k < 30:
+			if ch = operands(2 + r.Intn(3)); len(ch) >= 2 {
+				feat["union"] = true
+				return union(ch...)
+			}
+		case k < 70:
+			if ch = operands(2 + r.Intn(3)); len(ch) >= 2 {
+				feat["intersection"] = true
+				if len(ch) > 2 {
+					feat["nary-intersection"] = true
+				}
+				return intersection(ch...)
+			}
+		default:
+			if ch = operands(2); len(ch) >= 2 {
+				feat["exclusion"] = true
+				return difference(ch[0], ch[1])
+			}
+		}
+		return ch[0]
+	}
+	nDer := 2 + r.Intn(3)
+	for i := 0; i < nDer; i++ {
+		rn := fmt.Sprintf("t%d", i+1)
+		td.Relations[rn] = expr(2, rn)
+		td.Metadata.Relations[rn] = &openfgav1.RelationMetadata{}
+		avail = append(avail, rn)
+	}
+	model.TypeDefinitions = append(model.TypeDefinitions, td)
+	// permissive twin (same shape as NewCase's: every relation directly assignable to users and wildcards)
+	ptd := &openfgav1.TypeDefinition{Type: "doc", Relations: map[string]*openfgav1.Userset{}, Metadata: &openfgav1.Metadata{Relations: map[string]*openfgav1.RelationMetadata{}}}
+	for rn := range td.Relations {
+		ptd.Relations[rn] = this()
+		ptd.Metadata.Relations[rn] = &openfgav1.RelationMetadata{DirectlyRelatedUserTypes: []*openfgav1.RelationReference{Ref("user", "", false, ""), Ref("user", "", true, "")}}
+	}
+	perm.TypeDefinitions = append(perm.TypeDefinitions, ptd)
+	c := &Case{Name: name, Model: model, Permissive: perm, Features: feat, IDs: ids, Contexts: []*structpb.Struct{nil}}
+	for _, rn := range base {
+		density := []int{15, 35, 60, 85}[r.Intn(4)]
+		for _, d := range ids["doc"] {
+			if wild[rn] && r.Intn(100) < density/3 {
+				c.Tuples = append(c.Tuples, &openfgav1.TupleKey{Object: "doc:" + d, Relation: rn, User: "user:*"})
+			}
+			for _, u := range ids["user"] {
+				if r.Intn(100) < density {
+					// a few of these are invalid for wildcard-only relations: left-over tuples
+					if !plain[rn] {
+						if r.Intn(4) != 0 {
+							continue
+						}
+						feat["leftover"] = true
+					}
+					c.Tuples = append(c.Tuples, &openfgav1.TupleKey{Object: "doc:" + d, Relation: rn, User: "user:" + u})
+				}
+			}
+		}
+	}
+	r.Shuffle(len(c.Tuples), func(i, j int) { c.Tuples[i], c.Tuples[j] = c.Tuples[j], c.Tuples[i] })
+	return c
 }
